@@ -376,12 +376,17 @@ snarf_scale(const char *spec)
 			case 'I': {
 				/* Gent's types */
 				const char *kp = spec + 7U;
-				r = SCALE_HIJRI_IA;
-				r += (echs_scale_t)((*kp == 'V' || *kp++ == 'I') * 2U);
-				r += (echs_scale_t)((*kp == 'V' || *kp++ == 'I') * 2U);
-				r += (echs_scale_t)((*kp == 'C'));
-				r += (echs_scale_t)((*kp == 'V') ? 2U : 0U);
-				r += (echs_scale_t)(*++kp == 'C');
+				/* I, II, III or IV, then A or C */
+				unsigned int typ = 0U;
+
+				if (*kp == 'V') {
+					typ = 3U;
+					kp++;
+				} else {
+					for (; *kp == 'I' && typ < 2U; kp++, typ++);
+				}
+				r = (echs_scale_t)(SCALE_HIJRI_IA + 2U * typ);
+				r += (echs_scale_t)(*kp == 'C');
 				break;
 			}
 			}
